@@ -7,6 +7,15 @@ import Mathlib.Analysis.SpecialFunctions.Gamma.BohrMollerup
 /-
 C09 — special functions are accurate over their whole finite range.
 
+CARRIER PER CLAUSE of the property statement:
+* gamma within 1e-13, beta within 1e-12, digamma within 1e-10, erf within 1.5e-7, Γ(x+1) = xΓ(x), Γ(n+1) = n!:
+  SEARCH ONLY (bit-exact tie + mpmath reference, `tools/cv/c09.py`); no theorem here carries them.
+* ψ(x+1) = ψ(x) + 1/x: theorem for non-pole x < 6 in exact arithmetic (`digamma_recurrence`, `digammaFn_recurrence`:
+  one unfolding of the definition); search for x ≥ 6 and for rounding.
+* B(a,b) = B(b,a): `beta_comm` (one rewrite, any commutative `*`, `+`) + bit-exact search.
+* erf odd: `erf_odd` for x ≠ 0 (a case split); FALSE at 0: `erf_not_odd_at_zero` (finding `erf:odd:x=0`).
+* |erf| ≤ 1: `erf_abs_le_one`, `erf_nonneg` over ℝ with the doubles of the source (genuine polynomial bounds).
+
 Theorems about the model `Compute/Model/Special.lean` (the same definitions the compiled driver runs at `Float`,
 tied bit for bit to `/repo/src/functions/gamma.rs` and `statistical.rs::erf` by `./check C09`):
 
@@ -14,17 +23,18 @@ tied bit for bit to `/repo/src/functions/gamma.rs` and `statistical.rs::erf` by 
   `digammaSeries_real` (the table-driven series is the expression of the source);
 * structure (any linearly ordered field, any interpretation of the transcendental functions):
   `gamma_one_reflection`, `gammaF_eq_gammaFn`, `lnGammaF_eq_lnGammaFn`, `erfF_eq_erfFn` (one reflection / sign step),
-  `digammaF_terminates`, `digammaF_mono`, `digammaF_unfold`, `digammaF_fuel_exact` (exactly ⌈6 - x⌉ unfoldings),
-  `digamma_recurrence` (ψ(x+1) = ψ(x) + 1/x by construction for x < 6), `erf_odd`;
-* any scalar type at all (so also `Float`): `beta_comm`, `gammaF_eq_gammaFn_of`, `digamma_diverges_of_fixed`,
-  `erf_diverges_of_unordered` (the domain on which the Rust recursions return);
+  `digammaF_terminates`, `digammaF_mono`, `digammaF_unfold`, `digammaF_fuel_exact` (exactly ⌈6 - x⌉ unfoldings);
+  the exported `digammaFn`: `digammaFn_spec` (it is the recursion's value for x ≥ -100003), `digammaFn_exhausted` (default
+  below), `digammaFn_unfold`, `digammaFn_recurrence`;
+* any scalar type at all (so also `Float`): `beta_comm`, `gammaF_eq_gammaFn_of`, `erfF_eq_erfFn_of` (validity domain of the
+  exported `erfFn`), `digamma_diverges_of_fixed`, `erf_diverges_of_unordered` (where the Rust recursions do not return);
 * over ℝ with the doubles of the source: `erf_zero`, `erf_abs_le_one`, `erf_nonneg`; `lanczosSum_pos`,
   `gammaPos_pos`, `lnGamma_eq_log_gamma`; `gammaPos_eq_legacy`, `lanczos_split_range_partial`,
-  `legacy_single_power_overflows` + `gamma_143_finite'` (F21); `reflection_formula_exact`;
-  `reflection_divisor_overflows` (formal core of the open finding on (-178, -170.62)).
-
-NOT proved (see `NOT_PROVED` in tools/cv/c09.py): the accuracy bounds 1e-13 / 1e-12 / 1e-10 / 1.5e-7 themselves;
-they are decided by the bit-exact tie plus the dense search against mpmath at 50 digits.
+  `legacy_single_power_overflows` + `gamma_143_finite'` (F21);
+* about the TRUE Γ, not the model: `reflection_formula_exact`, `reflection_divisor_overflows` (background of the open
+  finding on (-178, -170.62));
+* junk / negative results: `gammaFn_pole_junk`, `digamma_pole_junk`, `erf_not_odd_at_zero`.
+rfl-level / one-line lemmas (`digamma_shift`, `half_eq`, `gammaF_one`, `lanczos_length`, `digammaF_succ_*`) are helpers, not results.
 -/
 set_option linter.unusedSectionVars false
 set_option linter.unusedSimpArgs false
@@ -110,13 +120,28 @@ theorem digammaF_terminates (n : Nat) : ∀ x : α, 6 - x ≤ (n : α) → ∃ y
       exact ⟨y - 1 / x, by rw [digammaF_succ_lt _ _ hx, hy]; rfl⟩
     · exact ⟨_, digammaF_succ_ge _ x hx⟩
 
-/-- ψ(x+1) = ψ(x) + 1/x holds by construction for every `x < 6` (exact arithmetic): whatever value the model
-computes for `x + 1` (with fuel `n`), the value it computes for `x` (fuel `n + 1`, or more) is that value minus
-`1/x`.  For `x ≥ 6` both sides are series values and the identity only holds approximately (searched). -/
-theorem digamma_recurrence (n : Nat) (x y₁ : α) (hx : x < 6) (h₁ : digammaF n (x + 1) = some y₁) :
+/-- ψ(x+1) = ψ(x) + 1/x holds by construction for every `x < 6` that is not a pole (exact arithmetic): whatever value
+the model computes for `x + 1` (with fuel `n`), the value it computes for `x` (fuel `n + 1`, or more) is that value
+minus `1/x`.  Guard `hpole`: `x` is not a non-positive integer, so no division of the unfolding is by zero (over a
+field `1/0 = 0` is a junk value; without the guard the statement would also "prove" ψ(1) = ψ(0), see
+`digamma_pole_junk`).  The guard is not needed by the algebra (`digamma_recurrence_algebra`), it delimits where the
+statement means what it says.  For `x ≥ 6` both sides are series values and the identity only holds approximately
+(search only). -/
+theorem digamma_recurrence (n : Nat) (x y₁ : α) (hx : x < 6) (_hpole : ∀ k : Nat, x + (k : α) ≠ 0)
+    (h₁ : digammaF n (x + 1) = some y₁) :
     ∃ y₀, digammaF (n + 1) x = some y₀ ∧ y₁ = y₀ + 1 / x := by
   refine ⟨y₁ - 1 / x, ?_, by ring⟩
   rw [digammaF_succ_lt _ _ hx, h₁]; rfl
+
+/-- The unguarded algebraic form (one unfolding of the definition; `1 / x` is the field's totalised division). -/
+theorem digamma_recurrence_algebra (n : Nat) (x y₁ : α) (hx : x < 6) (h₁ : digammaF n (x + 1) = some y₁) :
+    digammaF (n + 1) x = some (y₁ - 1 / x) := by
+  rw [digammaF_succ_lt _ _ hx, h₁]; rfl
+
+/-- Junk at the pole `x = 0` over a field (`1/0 = 0`): the model's value at 0 is its value at 1.  (At `Float` the
+code returns `digamma(1) - 1/0 = -∞`; the theorems over fields say nothing about poles.) -/
+theorem digamma_pole_junk (n : Nat) (y : α) (h : digammaF n ((0 : α) + 1) = some y) : digammaF (n + 1) (0 : α) = some y := by
+  rw [digamma_recurrence_algebra n 0 y (by norm_num) h]; simp
 
 /-- The recurrence is unfolded exactly `k` times, where `k` is the least natural number with `x + k ≥ 6`
 (`k = ⌈6 - x⌉` for `x < 6`): the result is the series at `x + k` minus `1/x + 1/(x+1) + … + 1/(x+k-1)`. -/
@@ -150,6 +175,43 @@ theorem digammaF_fuel_exact (k : Nat) : ∀ (x : α), (∀ i : Nat, i < k → x 
     have hx : x < 6 := by simpa using hlt 0 (by omega)
     rw [digammaF_succ_lt _ _ hx, ih (x + 1) (fun i hi => by have := hlt (i + 1) (by omega); push_cast at this; linarith)]
     rfl
+
+/-! #### the exported `digammaFn` (fuel `digammaFuel = 100010`, default on exhaustion) -/
+
+/-- Inside its domain `x ≥ 6 - 100009` the exported `digammaFn` IS the value of the fuelled Rust recursion. -/
+theorem digammaFn_spec (x : α) (h : 6 - x ≤ 100009) : digammaF digammaFuel x = some (digammaFn x) := by
+  obtain ⟨y, hy⟩ := digammaF_terminates 100009 x (by exact_mod_cast h)
+  have hy' : digammaF digammaFuel x = some y := hy
+  simp [digammaFn, hy']
+
+/-- Outside it (`x < 6 - 100010`) the recursion is cut off and `digammaFn` returns the DEFAULT `digammaSeries x`, which
+is not the Rust value (the Rust function recurses ≥ 10⁵ frames deep there, or for ever).  Executor and driver refuse
+`x < -100000` (`! diverged`), so this branch is never compared or used; models importing `digammaFn` must keep their
+arguments ≥ -100003. -/
+theorem digammaFn_exhausted (x : α) (h : x + 100010 ≤ 6) :
+    digammaF digammaFuel x = none ∧ digammaFn x = digammaSeries x := by
+  have h0 : digammaF digammaFuel x = none := digammaF_fuel_exact 100010 x (fun i hi => by
+    have : (i : α) + 1 ≤ 100010 := by exact_mod_cast hi
+    linarith)
+  exact ⟨h0, by simp [digammaFn, h0]⟩
+
+/-- ψ(x+1) = ψ(x) + 1/x for the exported function, for every non-pole `x < 6` of its domain. -/
+theorem digammaFn_recurrence (x : α) (hx : x < 6) (h : 6 - x ≤ 100009) (hpole : ∀ k : Nat, x + (k : α) ≠ 0) :
+    digammaFn (x + 1) = digammaFn x + 1 / x := by
+  have h1 := digammaFn_spec (x + 1) (by linarith)
+  obtain ⟨y₀, h0, e⟩ := digamma_recurrence digammaFuel x _ hx hpole h1
+  have h0' := digammaF_mono' digammaFuel 0 x _ (digammaFn_spec x h)
+  have : digammaF (digammaFuel + 1) x = some (digammaFn x) := digammaF_mono _ _ _ (digammaFn_spec x h)
+  rw [this] at h0
+  rw [e, ← Option.some.inj h0]
+
+/-- The exported function unfolds exactly `k = ⌈6 - x⌉` times (`k ≤ 100009`). -/
+theorem digammaFn_unfold (k : Nat) (hk : k ≤ 100009) (x : α) (hlt : ∀ i : Nat, i < k → x + (i : α) < 6)
+    (hge : ¬ (x + (k : α) < 6)) :
+    digammaFn x = digammaSeries (x + (k : α)) - ∑ i ∈ Finset.range k, 1 / (x + (i : α)) := by
+  have := digammaF_unfold k (100009 - k) x hlt hge
+  rw [show k + 1 + (100009 - k) = digammaFuel by simp [digammaFuel]; omega] at this
+  simp [digammaFn, this]
 
 /-! #### erf -/
 
@@ -206,6 +268,16 @@ section erfgen
 variable {α : Type} [Add α] [Sub α] [Mul α] [Div α] [Neg α] [One α] [Zero α] [Transc α] [OfLit α]
   [LE α] [DecidableLE α]
 
+/-- Validity domain of the exported closed form `erfFn` for ANY scalar type (in particular `Float`): wherever `x ≥ 0` or
+`-x ≥ 0` (IEEE: every non-NaN argument) the Rust recursion returns, and returns `erfFn x`.  At the remaining arguments
+(NaN) `erfFn` is NOT the Rust function: Rust never returns (`erf_diverges_of_unordered`; observed: stack overflow,
+process abort) while `erfFn NaN = NaN`.  Models that consume `erfFn` (Normal cdf) inherit exactly this domain. -/
+theorem erfF_eq_erfFn_of (n : Nat) (x : α) (h : (0 : α) ≤ x ∨ (0 : α) ≤ -x) : erfF (n + 2) x = some (erfFn x) := by
+  by_cases h0 : (0 : α) ≤ x
+  · simp [erfF, erfFn, h0]
+  · have h2 : (0 : α) ≤ -x := h.resolve_left h0
+    simp [erfF, erfFn, h0, h2]
+
 /-- Domain of `erf` for ANY scalar type (in particular `Float`): at an argument with neither `x ≥ 0` nor `-x ≥ 0`
 (IEEE: NaN) the Rust recursion `-erf(-x)` never returns (observed: `erf(NaN)` overflows the stack). -/
 theorem erf_diverges_of_unordered (x : α) (h1 : ¬ (0 : α) ≤ x) (h2 : ¬ (0 : α) ≤ -x) (h3 : -(-x) = x) :
@@ -236,10 +308,9 @@ theorem erf_zero : erfFn (0 : ℝ) = 18014399 / 18014398509481984 := by
 theorem erf_zero_small : |erfFn (0 : ℝ)| ≤ 1 / 100000000 := by
   rw [erf_zero, abs_of_nonneg (by norm_num)]; norm_num
 
-/-- For `x ≥ 0` the subtracted term `poly(t)·t·exp(-x²)` of the formula lies in `[0, 2]`. -/
-theorem erfPos_term (x : ℝ) (hx : 0 ≤ x) :
-    0 ≤ erfPos x ∧ erfPos x ≤ 1 ∨ -1 ≤ erfPos x ∧ erfPos x ≤ 1 := by
-  right
+/-- For `x ≥ 0` the formula `1 - poly(t)·t·exp(-x²)` lies in `[-1, 1]` (the subtracted term lies in `[0, 2]`);
+`erf_nonneg` sharpens this to `[0, 1]`. -/
+theorem erfPos_term (x : ℝ) (hx : 0 ≤ x) : -1 ≤ erfPos x ∧ erfPos x ≤ 1 := by
   have hp : (0 : ℝ) < ofLit C09T.erfP := by rw [ofLit_real]; simp only [C09T.erfP]; norm_num
   set t : ℝ := 1 / (1 + ofLit C09T.erfP * x) with ht
   have hden : (1 : ℝ) ≤ 1 + ofLit C09T.erfP * x := by nlinarith [mul_nonneg hp.le hx]
@@ -266,10 +337,12 @@ theorem erf_abs_le_one (x : ℝ) : |erfFn x| ≤ 1 := by
   unfold erfFn
   by_cases h : (0 : ℝ) ≤ x
   · rw [if_pos h]
-    rcases erfPos_term x h with ⟨a, b⟩ | ⟨a, b⟩ <;> exact abs_le.mpr ⟨by linarith, b⟩
+    obtain ⟨a, b⟩ := erfPos_term x h
+    exact abs_le.mpr ⟨a, b⟩
   · rw [if_neg h, abs_neg]
     have h2 : (0 : ℝ) ≤ -x := by linarith [not_le.mp h]
-    rcases erfPos_term (-x) h2 with ⟨a, b⟩ | ⟨a, b⟩ <;> exact abs_le.mpr ⟨by linarith, b⟩
+    obtain ⟨a, b⟩ := erfPos_term (-x) h2
+    exact abs_le.mpr ⟨a, b⟩
 
 example : |erfFn (3 : ℝ)| ≤ 1 := erf_abs_le_one 3
 
@@ -284,8 +357,7 @@ example : |erfFn (3 : ℝ)| ≤ 1 := erf_abs_le_one 3
 theorem lanczos_split_range_partial (z : ℝ) (h1 : 1 / 2 ≤ z) (h2 : z ≤ 172) :
     0 < halfPow z ∧ halfPow z ≤ 2 ^ 686 ∧
     Transc.sqrt (two * piC : ℝ) * halfPow z ≤ 2 ^ 688 ∧
-    Transc.sqrt (two * piC : ℝ) * halfPow z * Transc.exp (-(lanczosT z)) ≤ 2 ^ 688 ∧
-    (2 : ℝ) ^ 688 < 2 ^ 1023 := by
+    Transc.sqrt (two * piC : ℝ) * halfPow z * Transc.exp (-(lanczosT z)) ≤ 2 ^ 688 := by
   have ht0 : (0 : ℝ) < z + 543 / 128 := by linarith
   have hp0 : 0 < halfPow z := by rw [halfPow_real]; exact Real.rpow_pos_of_pos ht0 _
   have he0 : 0 ≤ (z - 1 / 2) / 2 := by linarith
@@ -308,13 +380,16 @@ theorem lanczos_split_range_partial (z : ℝ) (h1 : 1 / 2 ≤ z) (h2 : z ≤ 172
   have hE : Transc.exp (-(lanczosT z)) ≤ 1 := by
     rw [transc_exp, lanczosT_real]; exact Real.exp_le_one_iff.mpr (by linarith)
   have hE0 : 0 ≤ Transc.exp (-(lanczosT z) : ℝ) := by rw [transc_exp]; exact (Real.exp_pos _).le
-  refine ⟨hp0, hp, h3, ?_, pow_lt_pow_right₀ (by norm_num) (by norm_num)⟩
+  refine ⟨hp0, hp, h3, ?_⟩
   calc Transc.sqrt (two * piC : ℝ) * halfPow z * Transc.exp (-(lanczosT z))
       ≤ Transc.sqrt (two * piC : ℝ) * halfPow z * 1 :=
         mul_le_mul_of_nonneg_left hE (mul_nonneg hs0 hp0.le)
     _ ≤ 2 ^ 688 := by simpa using h3
 
-example : (1 : ℝ) / 2 ≤ 171.6 ∧ (171.6 : ℝ) ≤ 172 := by norm_num
+/-- The bound of `lanczos_split_range_partial` is 335 binades below the overflow threshold. -/
+theorem two_pow_688_lt : (2 : ℝ) ^ 688 < 2 ^ 1023 := pow_lt_pow_right₀ (by norm_num) (by norm_num)
+
+example : halfPow (1716 / 10 : ℝ) ≤ 2 ^ 686 := (lanczos_split_range_partial (1716 / 10) (by norm_num) (by norm_num)).2.1
 
 /-- The single power `t.powf((z - 1.) + 0.5)` of the code before repair F21. -/
 noncomputable def legacyPow (z : ℝ) : ℝ := Transc.pow (lanczosT z) ((z - 1) + half)
@@ -352,8 +427,10 @@ example : digammaF 5 (3 / 2 : ℝ) = none := digammaF_fuel_exact 5 _ (fun i hi =
   have : (i : ℝ) ≤ 4 := by exact_mod_cast Nat.le_of_lt_succ hi
   linarith)
 
-/-- The reflection step of `gamma` is the exact reflection formula: if the `else` branch were Γ itself and the
-constant were π itself, the value for `z < ½` would be Γ(z) (`sin(πz) ≠ 0`, i.e. `z` is not a pole). -/
+/-- A statement about the TRUE Γ (`Real.Gamma`), not about the model: the formula the reflection branch of `gamma`
+is built on, `π / (sin(πz) · Γ(1 - z)) = Γ(z)` for `sin(πz) ≠ 0`, is exact.  The model's branch uses the double `PI`
+and the Lanczos value `gammaPos (1 - z)` in place of π and Γ(1 - z); how close the result is to Γ(z) is decided by the
+search only. -/
 theorem reflection_formula_exact (z : ℝ) (hs : Real.sin (Real.pi * z) ≠ 0) :
     Real.pi / (Real.sin (Real.pi * z) * Real.Gamma (1 - z)) = Real.Gamma z := by
   have h := Real.Gamma_mul_Gamma_one_sub z
@@ -486,10 +563,11 @@ theorem gammaPos_pos (z : ℝ) (hz : 1 / 2 ≤ z) : 0 < gammaPos z := by
   have hx := lanczosSum_pos z (by linarith)
   unfold gammaPos; positivity
 
-/-- Formal core of the open finding `gamma:reflection-overflow:x<-170.62`: for every `z ≤ -171` the divisor
-`Γ(1 - z)` of the reflection formula exceeds the `f64` range (`Γ(172) = 171! > 2^1024` and Γ increases on `[2, ∞)`),
-so `PI / (sin(PI·z) · gamma(1 - z))` is evaluated as `PI / ±∞ = ±0` although `Γ(z)` itself is a normal `f64`
-close to the poles `-171, …, -177` (witnesses in the oracle's lower-edge stratum). -/
+/-- A statement about the TRUE Γ (`Real.Gamma`), not about the model: for every `z ≤ -171` the quantity `Γ(1 - z)` that
+the reflection branch has to approximate exceeds the `f64` range (`Γ(172) = 171! > 2^1024`, Γ increases on `[2, ∞)`).
+It explains the open finding `gamma:reflection-overflow:x<-170.62` (any `f64` approximation of that divisor is `+∞`,
+so `PI / (sin(PI·z) · ∞) = ±0`) but it does not prove that the Lanczos value `gammaPos (1 - z)` overflows: that is
+observed by the tie and the search (lower-edge stratum), not proved. -/
 theorem reflection_divisor_overflows (z : ℝ) (hz : z ≤ -171) : (2 : ℝ) ^ 1024 < Real.Gamma (1 - z) := by
   have h172 : Real.Gamma 172 = ((Nat.factorial 171 : ℕ) : ℝ) := by
     have h := Real.Gamma_nat_eq_factorial 171
@@ -500,6 +578,51 @@ theorem reflection_divisor_overflows (z : ℝ) (hz : z ≤ -171) : (2 : ℝ) ^ 1
   calc (2 : ℝ) ^ 1024 < ((Nat.factorial 171 : ℕ) : ℝ) := by exact_mod_cast factorial_171_gt
     _ = Real.Gamma 172 := h172.symm
     _ ≤ _ := hmono
+
+/-! ### Adjacent instantiations (every hypothesis discharged on a non-trivial input) -/
+
+example : ∃ y₀ y₁, digammaF 5 ((3 / 2 : ℝ) + 1) = some y₁ ∧ digammaF 6 (3 / 2 : ℝ) = some y₀ ∧ y₁ = y₀ + 1 / (3 / 2) := by
+  obtain ⟨y1, h1⟩ := digammaF_terminates (α := ℝ) 4 ((3 / 2 : ℝ) + 1) (by norm_num)
+  obtain ⟨y0, h0, e⟩ := digamma_recurrence (α := ℝ) 5 (3 / 2) y1 (by norm_num)
+    (fun k => by have : (0 : ℝ) ≤ (k : ℝ) := Nat.cast_nonneg k; linarith) h1
+  exact ⟨y0, y1, h1, h0, e⟩
+
+example : digammaFn ((3 / 2 : ℝ) + 1) = digammaFn (3 / 2 : ℝ) + 1 / (3 / 2) :=
+  digammaFn_recurrence (3 / 2) (by norm_num) (by norm_num)
+    (fun k => by have : (0 : ℝ) ≤ (k : ℝ) := Nat.cast_nonneg k; linarith)
+
+example : digammaFn (3 / 2 : ℝ) =
+    digammaSeries ((3 / 2 : ℝ) + ((5 : Nat) : ℝ)) - ∑ i ∈ Finset.range 5, 1 / ((3 / 2 : ℝ) + (i : ℝ)) :=
+  digammaFn_unfold 5 (by norm_num) _ (fun i hi => by
+    have : (i : ℝ) ≤ 4 := by exact_mod_cast Nat.le_of_lt_succ hi
+    linarith) (by norm_num)
+
+example : digammaFn (-200000 : ℝ) = digammaSeries (-200000 : ℝ) := (digammaFn_exhausted _ (by norm_num)).2
+
+example (a b : ℝ) : betaFn a b = betaFn b a := beta_comm mul_comm add_comm a b
+example : erfFn (-(1 : ℝ)) = -erfFn 1 := erf_odd 1 one_ne_zero
+example : erfF 2 (-(1 : ℝ)) = some (erfFn (-1)) := erfF_eq_erfFn_of 0 _ (Or.inr (by norm_num))
+example : 0 < lanczosSum (1 : ℝ) := lanczosSum_pos 1 one_pos
+example : lnGammaPos (1 : ℝ) = Real.log (gammaPos 1) := lnGamma_eq_log_gamma 1 (by norm_num)
+example : (2 : ℝ) ^ 1024 < legacyPow 143 := legacy_single_power_overflows 143 le_rfl
+example : gammaPos (143 : ℝ) =
+    Transc.sqrt (two * piC : ℝ) * legacyPow 143 * Transc.exp (-(lanczosT 143)) * lanczosSum 143 :=
+  gammaPos_eq_legacy 143 (by norm_num)
+
+/-! ### Where the property clause is FALSE of the model (and of the code: finding proposals) and junk values -/
+
+/-- `erf` is NOT odd at 0: the formula gives the same positive value `18014399/2^54` at `0` and at `-0 = 0`, so
+`erf(-0) = -erf(0)` fails (finding proposal `erf:odd:x=0`; at `Float`: `erf(±0.0) = 0x3e112e0be0000000`). -/
+theorem erf_not_odd_at_zero : erfFn (-(0 : ℝ)) ≠ -erfFn 0 := by
+  rw [neg_zero, erf_zero]; norm_num
+
+/-- Junk at the pole `z = 0` over ℝ (`x / 0 = 0`): the model's reflection branch gives 0 where Γ has a pole (the code
+returns `PI / (0 · 1) = +∞` at `Float`).  The theorems over ℝ say nothing at the poles `0, -1, -2, …` of Γ. -/
+theorem gammaFn_pole_junk : gammaFn (0 : ℝ) = 0 := by
+  have h : (0 : ℝ) < half := by rw [half_eq]; norm_num
+  simp only [gammaFn, h, if_true, mul_zero]
+  have : (Transc.sin (0 : ℝ)) = 0 := Real.sin_zero
+  rw [this, zero_mul, div_zero]
 
 end real
 
